@@ -12,7 +12,8 @@ def cinstr? (j : Json) : Option CInstr := do
   | [] => none
   | m :: rest =>
     let mn ← jStr? m
-    if mn == "create_epr" || mn == "recv_epr" || mn == "wait_all" || mn == "wait_any" || mn == "wait_single" then do
+    if mn == "create_epr" || mn == "recv_epr" || mn == "wait_all" || mn == "wait_any" || mn == "wait_single"
+        || mn == "meas_basis" then do
       let xs ← rest.mapM jInt?
       match mn, xs with
       | "create_epr", [b0, i0, b1, i1, b2, i2, b3, i3, b4, i4] =>
@@ -22,6 +23,8 @@ def cinstr? (j : Json) : Option CInstr := do
       | "wait_all", [ad, b0, i0, b1, i1] => pure (.waitAll ad (← xreg? b0 i0) (← xreg? b1 i1))
       | "wait_any", [ad, b0, i0, b1, i1] => pure (.waitAny ad (← xreg? b0 i0) (← xreg? b1 i1))
       | "wait_single", [ad, b0, i0] => pure (.waitSingle ad (← xreg? b0 i0))
+      | "meas_basis", [b0, i0, b1, i1, x0, x1, x2, x3] =>
+        pure (.measBasis (← xreg? b0 i0) (← xreg? b1 i1) x0 x1 x2 x3)
       | _, _ => none
     else (xinstr? j).map CInstr.base
 
